@@ -430,6 +430,10 @@ func genCase(t *rapid.T) Case {
 				if v.Kind == gen.ScalarKind && len(v.Lines) == 1 && (v.Style == gen.Plain || v.Style == gen.SingleQ || v.Style == gen.DoubleQ) {
 					cands = append(cands, v)
 				}
+				// `labels: # comment` / `annotations: # comment`: the value (a block mapping) starts on the next line
+				if v.Kind == gen.MapKind && !v.Flow && len(v.Pairs) > 0 {
+					cands = append(cands, v)
+				}
 			}
 			if len(cands) == 0 {
 				return ""
